@@ -137,6 +137,9 @@ def _eval_region(f, guards, name, at, U, n_evals):
             return U
         if isinstance(e, ast.Subscript) and isinstance(e.value, ast.Name) and e.value.id == '_lower':
             return LO
+        if not isinstance(e, ast.Constant) and width_term(e, at, f) in ('N',) or \
+                (not isinstance(e, ast.Constant) and (width_term(e, at, f) or '').startswith('S:')):
+            return U.bit_length()
         if isinstance(e, ast.Name) and e.id != name:
             rv = reaching_value(e.id, at)
             if rv is not None and isinstance(rv, ast.Subscript) and isinstance(rv.value, ast.Name) and rv.value.id == '_lower':
